@@ -91,12 +91,13 @@ class Prop:
         # build everything first (parallel builds of different variants share nothing)
         exes = {}
         for st in self.stages:
-            if (cases_override or (st.thorough if tier == "thorough" else st.quick)) > 0:
+            if (st.thorough if tier == "thorough" else st.quick) > 0:
                 exes[st.name] = st.build()
         for si, st in enumerate(self.stages):
-            cases = cases_override or (st.thorough if tier == "thorough" else st.quick)
+            cases = st.thorough if tier == "thorough" else st.quick
             if cases <= 0:
-                continue
+                continue      # a stage that the tier does not run is not run by --cases either
+            cases = cases_override or cases
             out = os.path.join(rundir, st.name)
             ts = time.time()
             n, failed = vlib.run_workers(exes[st.name], out, seed, cases, tier, nworkers=st.nworkers,
